@@ -85,6 +85,20 @@ impl Metadata {
     #[verifier::external_body] pub fn st_ino(&self) -> (r: u64) ensures r == self.spec_ino() { unimplemented!() }
     #[verifier::external_body] pub fn st_uid(&self) -> (r: u32) ensures r == self.spec_uid() { unimplemented!() }
     #[verifier::external_body] pub fn st_gid(&self) -> (r: u32) ensures r == self.spec_gid() { unimplemented!() }
+    // second-resolution and link-count accessors: values opaque (no contract speaks about them)
+    #[verifier::external_body] pub fn nlink(&self) -> (r: u64) { unimplemented!() }
+    #[verifier::external_body] pub fn mtime(&self) -> (r: i64) { unimplemented!() }
+    #[verifier::external_body] pub fn atime(&self) -> (r: i64) { unimplemented!() }
+    #[verifier::external_body] pub fn ctime(&self) -> (r: i64) { unimplemented!() }
+    #[verifier::external_body] pub fn mtime_nsec(&self) -> (r: i64) { unimplemented!() }
+    #[verifier::external_body] pub fn atime_nsec(&self) -> (r: i64) { unimplemented!() }
+}
+impl File {
+    /// dup(2): a second descriptor for the same open file description (same inode, *shared* offset)
+    #[verifier::external_body]
+    pub fn try_clone(&self) -> (r: std::result::Result<File, io::Error>)
+        ensures r is Ok ==> r->Ok_0.inode() == self.inode() && r->Ok_0.id() == self.id(),
+    { unimplemented!() }
 }
 
 impl Path {
@@ -96,6 +110,10 @@ impl Path {
     #[verifier::external_body] pub fn is_relative(&self) -> (r: bool) { unimplemented!() }
     #[verifier::external_body] pub fn starts_with(&self, base: &Path) -> (r: bool) { unimplemented!() }
     #[verifier::external_body] pub fn ends_with(&self, child: &Path) -> (r: bool) { unimplemented!() }
+    #[verifier::external_body] pub fn with_extension(&self, ext: &str) -> (r: Path) { unimplemented!() }
+    #[verifier::external_body] pub fn with_file_name(&self, name: &str) -> (r: Path) { unimplemented!() }
+    #[verifier::external_body] pub fn to_str(&self) -> (r: Option<&str>) { unimplemented!() }
+    #[verifier::external_body] pub fn as_os_str(&self) -> (r: &OsStr) { unimplemented!() }
     #[verifier::external_body]
     pub fn try_exists(&self, Tracked(w): Tracked<&World>) -> (r: std::result::Result<bool, io::Error>)
         ensures r is Ok ==> r->Ok_0 == exists_m(w.paths, self.key()) { unimplemented!() }
@@ -103,6 +121,48 @@ impl Path {
 
 pub mod fs_more {
     use super::*;
+    /// link(2): a second name for the same inode; EEXIST when the new name is taken
+    #[verifier::external_body]
+    pub fn hard_link(a: &Path, b: &Path, Tracked(w): Tracked<&mut World>) -> (r: std::result::Result<(), io::Error>)
+        ensures fr_ns(*old(w), *final(w)), final(w).eexist == old(w).eexist + (if r is Err && old(w).paths.contains_key(b.key()) { 1nat } else { 0 }),
+            old(w).paths.contains_key(b.key()) ==> r is Err,
+            match r {
+                Ok(_) => {
+                    &&& final(w).faults == old(w).faults && exists_m(old(w).paths, a.key()) && !old(w).paths.contains_key(b.key())
+                    &&& final(w).paths == old(w).paths.insert(b.key(), final(w).paths[b.key()])
+                    &&& final(w).paths[b.key()].inode == old(w).paths[a.key()].inode && final(w).paths[b.key()].reach
+                    &&& final(w).paths[b.key()].kind == old(w).paths[a.key()].kind && final(w).paths[b.key()].tkind == old(w).paths[a.key()].tkind
+                    &&& final(w).trace == old(w).trace.push(Event::Symlink(a.key(), b.key()))
+                },
+                Err(_) => final(w).faults == old(w).faults + 1 && final(w).paths == old(w).paths && final(w).trace == old(w).trace,
+            },
+    { unimplemented!() }
+    /// rmdir(2): removes the directory's entry (like unlink for the namespace model)
+    #[verifier::external_body]
+    pub fn remove_dir(p: &Path, Tracked(w): Tracked<&mut World>) -> (r: std::result::Result<(), io::Error>)
+        ensures fr_ns(*old(w), *final(w)), final(w).eexist == old(w).eexist,
+            match r {
+                Ok(_) => {
+                    &&& final(w).faults == old(w).faults && old(w).paths.contains_key(p.key())
+                    &&& (forall|k: PathKey| #[trigger] final(w).paths.contains_key(k) <==> (old(w).paths.contains_key(k) && old(w).paths[k].entry != old(w).paths[p.key()].entry))
+                    &&& (forall|k: PathKey| #[trigger] final(w).paths.contains_key(k) ==> final(w).paths[k] == old(w).paths[k])
+                    &&& final(w).trace == old(w).trace.push(Event::Remove(p.key()))
+                },
+                Err(_) => final(w).faults == old(w).faults + 1 && final(w).paths == old(w).paths && final(w).trace == old(w).trace,
+            },
+    { unimplemented!() }
+    /// recursive removal / std::fs::copy: whatever they do to the namespace and to file contents is not modelled beyond the error accounting:
+    /// code under contract that starts to call them cannot prove its frame (deliberately coarse)
+    #[verifier::external_body]
+    pub fn remove_dir_all(p: &Path, Tracked(w): Tracked<&mut World>) -> (r: std::result::Result<(), io::Error>)
+        ensures final(w).faults == old(w).faults + (if r is Err { 1nat } else { 0 }), final(w).tolerated == old(w).tolerated,
+            final(w).trace.len() > old(w).trace.len() || r is Err,
+    { unimplemented!() }
+    #[verifier::external_body]
+    pub fn copy(a: &Path, b: &Path, Tracked(w): Tracked<&mut World>) -> (r: std::result::Result<u64, io::Error>)
+        ensures final(w).faults == old(w).faults + (if r is Err { 1nat } else { 0 }), final(w).tolerated == old(w).tolerated,
+            final(w).trace.len() > old(w).trace.len() || r is Err,
+    { unimplemented!() }
     /// chmod(2) by path (follows links)
     #[verifier::external_body]
     pub fn set_permissions(p: &Path, perm: Permissions, Tracked(w): Tracked<&mut World>) -> (r: std::result::Result<(), io::Error>)
